@@ -146,7 +146,7 @@ SameV(a, b) ==
   IF a.t # b.t THEN FALSE
   ELSE CASE a.t = "n" -> TRUE
          [] a.t = "b" -> a.b = b.b
-         [] a.t = "q" -> a.h = b.h
+         [] a.t = "q" -> IF IsObs(a) /\ IsObs(b) THEN a.h = b.h ELSE a.n = b.n /\ a.d = b.d
          [] a.t = "nf" -> a.h = b.h
          [] a.t = "o" -> a.h = b.h
          [] a.t = "d" -> /\ {a.k[j] : j \in 1..Len(a.k)} = {b.k[j] : j \in 1..Len(b.k)}
